@@ -33,9 +33,9 @@ loop("helpers.filter_citations", 1,
                  "0 <= ghost.finv[i] and ghost.finv[i] < len(filtered_citations) and ghost.fidx[ghost.finv[i]] == i))",
     })
 # ghost bookkeeping: fidx mirrors pop/append on filtered_citations; finv records where sorted[k+1] went
-ghost_code("helpers.filter_citations", "after:Expr#2", "ghost.fidx = seq_pop(ghost.fidx)")
-ghost_code("helpers.filter_citations", "after:Expr#3", "ghost.fidx = seq_append(ghost.fidx, k + 1)")
-ghost_code("helpers.filter_citations", "after:Expr#5", "ghost.fidx = seq_append(ghost.fidx, k + 1)")
+ghost_code("helpers.filter_citations", "after:call:filtered_citations.pop#1", "ghost.fidx = seq_pop(ghost.fidx)")
+ghost_code("helpers.filter_citations", "after:call:filtered_citations.append#1", "ghost.fidx = seq_append(ghost.fidx, k + 1)")
+ghost_code("helpers.filter_citations", "after:call:filtered_citations.append#2", "ghost.fidx = seq_append(ghost.fidx, k + 1)")
 ghost_code("helpers.filter_citations", "loop1:body_end", "ghost.finv = seq_append(ghost.finv, len(filtered_citations) - 1)")
 
 
@@ -50,12 +50,12 @@ def _seq_append3(e, st, s, v):
     return e.seq_append(s, v)
 
 WF_OF = "{x} is not None and forall(lambda i: implies(0 <= i and i < len({x}), cit_wf({x}[i]) and {x}[i].token.start is not None and {x}[i].token.end is not None))"
-ghost_code("helpers.filter_citations", "after:Assign#1", "assert " + WF_OF.format(x="citations") + ", 'deduped_wf'")
-ghost_code("helpers.filter_citations", "after:Assign#2", "assert " + WF_OF.format(x="sorted_citations") + ", 'sorted_wf'")
+ghost_code("helpers.filter_citations", "after:assign:citations#1", "assert " + WF_OF.format(x="citations") + ", 'deduped_wf'")
+ghost_code("helpers.filter_citations", "after:assign:sorted_citations#1", "assert " + WF_OF.format(x="sorted_citations") + ", 'sorted_wf'")
 ghost_code("helpers.filter_citations", "loop1:body_start", "assert cit_wf(citation) and citation.token.start is not None and citation.token.end is not None, 'current_wf'")
 # the de-duplication runs over D = sorted(citations, key=<is not a reference>): a stable permutation of the argument with the reference citations
 # first, so that among citations with one span the last writer is a non-reference citation whenever there is one
-ghost_code("helpers.filter_citations", "after:Assign#1",
+ghost_code("helpers.filter_citations", "after:assign:citations#1",
     "assert forall(lambda b: implies(0 <= b and b < len(citations), 0 <= dedupe_src(citations, b) and dedupe_src(citations, b) < len(dedupe_input(citations)) "
     "and citations[b] is dedupe_input(citations)[dedupe_src(citations, b)] and 0 <= dsrc(citations, b) and dsrc(citations, b) < len(old(citations)) "
     "and citations[b] is old(citations)[dsrc(citations, b)])), 'dedupe_sources'\n"
@@ -68,7 +68,7 @@ ghost_code("helpers.filter_citations", "after:Assign#1",
     "and forall(lambda i2: implies(i < i2 and i2 < len(old(citations)) and not isinstance(old(citations)[i2], ReferenceCitation), old(citations)[i2].span() != old(citations)[i].span())), "
     "exists(lambda j: 0 <= j and j < len(citations) and citations[j] is old(citations)[i]))), 'dedupe_keeps_nonref'\n"
     "assert forall(lambda j: implies(0 <= j and j < len(citations), exists(lambda i: 0 <= i and i < len(old(citations)) and citations[j] is old(citations)[i]))), 'dedupe_subseq'")
-ghost_code("helpers.filter_citations", "after:Assign#2",
+ghost_code("helpers.filter_citations", "after:assign:sorted_citations#1",
     "assert forall(lambda a, b: implies(0 <= a and a < b and b < len(sorted_citations), sorted_citations[a].span() != sorted_citations[b].span())), 'sorted_distinct_spans'\n"
     "assert forall(lambda j: implies(0 <= j and j < len(citations), exists(lambda a: 0 <= a and a < len(sorted_citations) and sorted_citations[a] is citations[j]))), 'sorted_keeps_all'\n"
     "assert forall(lambda a: implies(0 <= a and a < len(sorted_citations), 0 <= sort_src(sorted_citations, a) and sort_src(sorted_citations, a) < len(citations) "
